@@ -68,6 +68,10 @@ def _scenario(draw):
         "alt": q("distance", 0.0, 2000.0), "press": q("pressure", 80000.0, 103000.0), "temp": q("temperature", 260.0, 305.0),
         "hum": draw(st.floats(0.0, 100.0)), "powder_t": q("temperature", 265.0, 305.0),
         "wind": [q("velocity", 0.0, 12.0), q("angular", 0.0, 6.0), q("distance", 100.0, 900.0)],
+        "wind2": [q("velocity", 0.0, 12.0), q("angular", 0.0, 6.0), q("distance", 50.0, 400.0)],
+        "wind3": [q("velocity", 0.0, 12.0), q("angular", 0.0, 6.0), q("distance", 50.0, 400.0)],
+        # history: the settings in force may change while the inputs are being built (run 1 only)
+        "M": draw(_config()), "switch_at": draw(st.integers(0, 6)),
         "sh": q("distance", 0.03, 0.1), "twist": q("distance", 0.2, 0.35),
         "calib": q("distance", 50.0, 200.0), "hclick": q("angular", 5e-5, 3e-4), "vclick": q("angular", 5e-5, 3e-4),
         "look": q("angular", 0.0, 0.2), "rel": q("angular", 0.0, 0.003), "cant": q("angular", 0.0, 0.1),
@@ -83,8 +87,17 @@ def _mk(pair):
     return Unit[u](ref.from_si(si, u))
 
 
-def _run_scenario(c):
+def _run_scenario(c, switch=None):
+    """switch = (index, config): at that construction step the preferred units are switched to config"""
     out = []
+    step_no = [0]
+
+    def tick():
+        if switch is not None and step_no[0] == switch[0]:
+            _apply(switch[1])
+        step_no[0] += 1
+
+    tick()
     pts = [pb.BCPoint(c["bc"][0], V=_mk(c["v_pts"][0])), pb.BCPoint(c["bc"][1], V=_mk(c["v_pts"][1])), pb.BCPoint(c["bc"][2], Mach=c["mach_pt"])]
     dm = pb.DragModelMultiBC(pts, pb.TableG7, _mk(c["weight"]), _mk(c["diameter"]), _mk(c["length"]))
     out.append(("dm", dm.BC, dm.weight.raw_value, dm.diameter.raw_value, dm.length.raw_value, tuple((p.Mach, p.CD) for p in dm.drag_table)))
@@ -93,10 +106,19 @@ def _run_scenario(c):
     out.append(("sens", ammo.calc_powder_sens(V.MPS(v0 + c["v1"]), T.Celsius(t0 + c["t1"]))))
     atmo = pb.Atmo(_mk(c["alt"]), _mk(c["press"]), _mk(c["temp"]), c["hum"], _mk(c["powder_t"]))
     out.append(("atmo", atmo.density_ratio, atmo._mach, atmo.altitude.raw_value, atmo.pressure.raw_value, atmo.temperature.raw_value))
+    tick()
     wind = pb.Wind(_mk(c["wind"][0]), _mk(c["wind"][1]), _mk(c["wind"][2]))
+    tick()
+    wind2 = pb.Wind(_mk(c["wind2"][0]), _mk(c["wind2"][1]), _mk(c["wind2"][2]))
+    tick()
+    wind3 = pb.Wind(_mk(c["wind3"][0]), _mk(c["wind3"][1]), _mk(c["wind3"][2]))
+    tick()
     sight = pb.Sight("SFP", _mk(c["calib"]), _mk(c["hclick"]), _mk(c["vclick"]))
     weapon = pb.Weapon(_mk(c["sh"]), _mk(c["twist"]), sight=sight)
-    shot = pb.Shot(weapon, ammo, _mk(c["look"]), _mk(c["rel"]), _mk(c["cant"]), atmo, [wind])
+    tick()
+    shot = pb.Shot(weapon, ammo, _mk(c["look"]), _mk(c["rel"]), _mk(c["cant"]), atmo, [wind, wind2, wind3])
+    out.append(("wind-order", tuple(w.until_distance.raw_value for w in shot.winds)))
+    tick()
     calc = pb.Calculator()
     try:
         z = calc.set_weapon_zero(shot, _mk(c["zero_d"]))
@@ -133,12 +155,18 @@ def _run_scenario(c):
 
 def check_explicit(case):
     r = Res()
+    case = dict(case)
+    case.setdefault("wind2", case["wind"])     # (older corpus files predate the additional winds)
+    case.setdefault("wind3", case["wind"])
+    case.setdefault("M", None)
+    case.setdefault("switch_at", 0)
     results = []
     cfgs = []
     for name in ("P", "Q"):
         _apply(case[name])
         cfgs.append(_current())
-        results.append(_run_scenario(case))
+        sw = (case["switch_at"], case["M"]) if (name == "P" and case.get("M") is not None) else None
+        results.append(_run_scenario(case, sw))
         lib.reset_state()
     ndiff = sum(1 for s in SLOTS if cfgs[0][s] != cfgs[1][s])
     for (ka, *va), (kb, *vb) in zip(*results):
